@@ -68,6 +68,12 @@ fn main() {
                 }
                 return;
             }
+            if engine == "btor2" && opt == "validx" {
+                for l in gen_btor2::validators_exhaustive() {
+                    writeln!(out, "{}", l).unwrap();
+                }
+                return;
+            }
             if engine == "renumber" {
                 // deep chain / cycle: termination without native-stack growth, once per run
                 for l in eng_renumber::deep_cases(thorough) {
